@@ -17,18 +17,8 @@ report contains violation if {
 	not ast.is_chained_rule_body(rule, input.regal.file.lines)
 
 	loc := result.location(rule.head)
-	eq_col := _eq_col(loc.location.text)
 
-	violation := result.fail(rego.metadata.chain(), object.union(
-		loc,
-		{"location": {
-			"col": eq_col,
-			"end": {
-				"row": loc.location.row,
-				"col": eq_col + 1,
-			},
-		}},
-	))
+	violation := result.fail(rego.metadata.chain(), _operator_location_or(rule.head.value, loc))
 }
 
 report contains violation if {
@@ -40,18 +30,8 @@ report contains violation if {
 	not ast.implicit_boolean_assignment(rule)
 
 	loc := result.location(result.location(rule.head.ref[0]))
-	eq_col := _eq_col(loc.location.text)
 
-	violation := result.fail(rego.metadata.chain(), object.union(
-		loc,
-		{"location": {
-			"col": eq_col,
-			"end": {
-				"row": loc.location.row,
-				"col": eq_col + 1,
-			},
-		}},
-	))
+	violation := result.fail(rego.metadata.chain(), _operator_location_or(rule.head.value, loc))
 }
 
 report contains violation if {
@@ -72,18 +52,33 @@ report contains violation if {
 	# extract the text from location to see if '=' is used for
 	# assignment
 	regex.match(`else\s*=`, loc.location.text)
-	eq_col := _eq_col(loc.location.text)
 
-	violation := result.fail(rego.metadata.chain(), object.union(
-		loc,
-		{"location": {
-			"col": eq_col,
-			"end": {
-				"row": loc.location.row,
-				"col": eq_col + 1,
-			},
-		}},
-	))
+	violation := result.fail(rego.metadata.chain(), _operator_location(value.head.value))
 }
 
-_eq_col(text) := max([0, indexof(text, "=")]) + 1
+# METADATA
+# description: |
+#   the location of the = operator of a rule head, which is the last character (whitespace aside)
+#   before the value of the head. Note that looking for the first = of the line isn't enough, as that
+#   may just as well be found inside of a string in the args or the key of the head, or belong to
+#   another head on the same line. Undefined when the operator isn't found on the row of the value
+_operator_location(head_value) := location if {
+	value := result.location(head_value)
+	before := trim_right(substring(value.location.text, 0, value.location.col - 1), " \t")
+
+	endswith(before, "=")
+	not endswith(before, ":=")
+
+	col := count(before)
+	location := object.union(value, {"location": {
+		"col": col,
+		"end": {
+			"row": value.location.row,
+			"col": col + 1,
+		},
+	}})
+}
+
+_operator_location_or(head_value, _) := _operator_location(head_value)
+
+_operator_location_or(head_value, fallback) := fallback if not _operator_location(head_value)
